@@ -88,7 +88,10 @@ MTMounts == << <<"tmp">>, <<>> >>
 MTCheck == Have =>
   \A k \in 1..Len(C.mt):
     LET o == C.mt[k]
-        good == IF o.ok THEN o.m = MTMounts[k] /\ NoDots(o.rel) ELSE ~o.si
+        \* the directory is made UNDER the temporary directory: one component below it (seen from the mount /tmp that
+        \* is the name alone, from the mount / it is tmp and the name)
+        want == IF MTMounts[k] = <<>> THEN <<"x", "x">> ELSE <<"x">>
+        good == IF o.ok THEN o.m = MTMounts[k] /\ NoDots(o.rel) /\ o.rel = want ELSE ~o.si
     IN good \/ Report("mt", k, [ok |-> TRUE, m |-> MTMounts[k]])
 
 \* ------------------------------------------------------------------ localfs.Filesystem
@@ -124,7 +127,7 @@ Must(m, base, x) ==
     [] m \in {"wf", "cr", "ow"} -> IF x \in F \/ Creatable(x) THEN Yes({x}) ELSE No
     [] m = "mk" -> IF Creatable(x) THEN Yes({x}) ELSE No
     [] m = "ma" -> IF x \notin E /\ Prefixes(x) \cap F = {} THEN Yes(Prefixes(x) \ D) ELSE No
-    [] m = "mt" -> IF x \in D /\ ~EmptyString THEN Yes({x \o <<"mt*">>}) ELSE No
+    [] m = "mt" -> IF x \in D THEN Yes({x \o <<"mt*">>}) ELSE No
     [] m = "rm" -> IF x \in F THEN Yes({x}) ELSE No
     [] m = "ra" -> IF x \in E THEN Yes(Desc(x)) ELSE No
     [] m = "r1" -> IF x \in F THEN Yes({x, zz}) ELSE No
